@@ -466,6 +466,25 @@ func c12Records(r *kernel.Run) {
 	o2 := []nodeenrollment.Option{nodeenrollment.WithStorageWrapper(w2)}
 	r.Count("cfg.mode.records", 1)
 	rb := func(n int) []byte { b := make([]byte, n); rand.Read(b); return b }
+	// key bytes are arbitrary: one time in six they happen to be well-formed protobuf (here: something that parses as the
+	// envelope a wrapper produces, with a non-empty ciphertext field) - about one random 32-byte key in 28000 is
+	keyBytes := func() []byte {
+		b := rb(32)
+		if tp.Draw(6) == 0 {
+			n := tp.Range(1, 30)
+			b[0], b[1] = 0x0a, byte(n) // field 1 (ciphertext), length n
+			if 2+n < 32 {
+				rest := 32 - 2 - n // pad with another length-delimited field so that all 32 bytes parse
+				if rest >= 2 {
+					b[2+n], b[3+n] = 0x12, byte(rest-2)
+				} else {
+					b[1] = 30
+				}
+			}
+			r.Count("cfg.key_bytes_that_parse_as_an_envelope", 1)
+		}
+		return b
+	}
 	opt := tp.Draw(16) // bit mask of optional fields: 1 nonce, 2 previous key, 4 state, 8 bundles
 	prevKey := func() *types.EncryptionKey {
 		if opt&2 == 0 {
@@ -576,7 +595,7 @@ func c12Records(r *kernel.Run) {
 		mk := func(name string) *types.NodeInformation {
 			id := NewIdent(name)
 			ni := &types.NodeInformation{Id: id.KeyId, CertificatePublicKeyPkix: id.Pkix, CertificatePublicKeyType: types.KEYTYPE_ED25519,
-				EncryptionPublicKeyBytes: id.EncPub, EncryptionPublicKeyType: types.KEYTYPE_X25519, ServerEncryptionPrivateKeyBytes: rb(32), ServerEncryptionPrivateKeyType: types.KEYTYPE_X25519}
+				EncryptionPublicKeyBytes: id.EncPub, EncryptionPublicKeyType: types.KEYTYPE_X25519, ServerEncryptionPrivateKeyBytes: keyBytes(), ServerEncryptionPrivateKeyType: types.KEYTYPE_X25519}
 			if opt&1 != 0 {
 				ni.RegistrationNonce = rb(32)
 			}
